@@ -36,6 +36,7 @@ LEVELS = ['b', 'a', 'c', 'd']                 # declared levels of a categorical
 UNIVERSE = {                                  # code -> label value (first appearance order != sorted order)
     'str': ['b', 'a', 'c'],
     'numstr': ['1', '0', '2'],
+    'mixnum': [1.5, '0', '2.5'],              # regression labels of mixed form: a number, numeric text (number first or text first by the sequence)
     'int': [8, 0, 16],                        # a python set of these iterates in insertion-dependent, unsorted order
     'float': [1.5, 0.0, -2.5],
     'cat': ['b', 'a', 'c'],
@@ -58,7 +59,7 @@ MIXLEVELS = [['b', 'a', 'c', 'd'], ['c', 'd', 'a', 'b'], ['a', 'b', 'c', 'd', 'e
 ARFF2LEVELS = [['b', 'a', 'c', 'd'], ['c', 'd', 'a', 'b']]      # the two ARFF parts of the 'arff2d' / 'arff2s' deliveries
 
 LABEL_TYPES = {                               # label_type values enumerated per label kind (meaningless pairs are left out)
-    'str': [None, 'c'], 'numstr': [None, 'c', 'r'], 'int': [None, 'c', 'r'], 'float': [None, 'c', 'r'], 'cat': [None, 'c'], 'catmix': [None, 'c'],
+    'str': [None, 'c'], 'numstr': [None, 'c', 'r'], 'int': [None, 'c', 'r'], 'float': [None, 'c', 'r'], 'cat': [None, 'c'], 'catmix': [None, 'c'], 'mixnum': ['r'],
     'tuple': [None, 'c'], 'list1': [None, 'c', 'm'], 'list1n': [None, 'c', 'r', 'm'], 'list1s': [None, 'c', 'r', 'm'],
     'mstr': ['m'], 'mint': ['m'], 'mtup': ['m'], 'mnumstr': ['m'],
 }
@@ -67,7 +68,7 @@ ADMISSIBLE = {                                # label_type=None: the statement d
     'list1': ['c', 'm'], 'list1n': ['c', 'm', 'r'], 'list1s': ['c', 'm'],
 }
 
-GROUP = {'str': 'scalar', 'numstr': 'scalar', 'int': 'scalar', 'float': 'scalar', 'cat': 'Categorical', 'catmix': 'Categorical (members with different level lists)', 'tuple': 'tuple',
+GROUP = {'str': 'scalar', 'numstr': 'scalar', 'int': 'scalar', 'float': 'scalar', 'mixnum': 'mixed number / numeric text', 'cat': 'Categorical', 'catmix': 'Categorical (members with different level lists)', 'tuple': 'tuple',
          'list1': 'list-valued', 'list1n': 'list-valued', 'list1s': 'list-valued'}      # label kinds as they appear in violation keys
 
 DENSE_F = [[10, 20], [11, 21], [12, 22], [13, 23], [14, 24]]
@@ -205,7 +206,7 @@ def build(case):
             for i, c in enumerate(ys):
                 r = pyfeat(i)
                 v = label_value(lab, c, i)
-                if not (d == 'srows0' and v == 0): r[key] = v
+                if not (d == 'srows0' and v in (0, '0')): r[key] = v
                 rows.append(r)
             return (ListSource(rows),), dict(kw, label_col=key)
     elif d in ('csv', 'csvh'):
@@ -352,7 +353,7 @@ class C14(Check):
             'float, Categorical with an unused declared level, Categoricals whose members carry DIFFERENT level lists (other order, superset, reverse; X,Y / pairs / rows and a source chaining two ARFF parts that declare {b,a,c,d} and {c,d,a,b}), int labels {8,0,16} (set iteration order != sorted, insertion dependent), [l] list-valued str/int, one-hot tuples; first-appearance order != sorted order) and, '
             'for multi-label, ALL sequences over the 8 subsets (incl. the empty set) of a 3-label universe (lists of str / int, tuples); label_type in '
             '{None,c,r,m} where meaningful for the label kind; delivery in {(X,Y), source of (x,y) pairs, dense rows + label_col index at every position, '
-            'HeadRows dense rows by header / index, sparse rows with str / int label key, sparse rows that omit a 0 label, HeadRows sparse rows by header / '
+            'HeadRows dense rows by header / index, sparse rows with str / int label key, sparse rows that omit a 0 label (int, float, and numeric text under regression), regression labels of mixed form (number first / numeric text first, by the sequence) in X,Y, pairs, dense / headed / sparse rows, HeadRows sparse rows by header / '
             'index, PRE-LABELLED sources (dense / headed / sparse rows, ARFF dense+sparse and CSV reader pipelines joined with LabelRows(label, declared type) by the caller, simulation built from the source only) x every declared type in {None,c,r,m} x every requested label_type in {None,c,r,m} meaningful for the label kind (take in {None,2}), positional and source= call styles, CsvSource(**dialect) with one representative per csv option that changes how a line is split (delimiter ; and tab, skipinitialspace, quotechar with a field containing the delimiter, escapechar+QUOTE_NONE; lines written by an own serialiser, expected values = the fields), every text source also from a scratch file handed over as a plain path and as a file:// url, CSV (with/without header, by index / header), ARFF dense and sparse (nominal / numeric / string '
             'label attribute, by header / index, every position), LibSVM, Manik (single and comma-separated labels)}; take in {None,0,1,2,N,N+1} for every '
             'source delivery; enumerated exhaustively, fewest examples first. Every case is read twice from fresh objects (SupervisedSimulation.read and '
@@ -369,7 +370,7 @@ class C14(Check):
         'label sets are sequences (list/tuple) of distinct labels; python set objects and duplicated labels are outside the alphabet',
         'an empty example set (or take=0) may be rejected with an exception instead of giving zero interactions',
         'through Environments.from_supervised a Categorical label is one-hot encoded by Finalize: there only "exactly one offered action has reward 1, the same action for equal labels, different actions for different labels" is demanded (the encoding itself is C10)',
-        'labels of mixed types, negative label_col indexes, rows without a label (other than a sparse numeric 0) and label_type values that are meaningless for the label kind (r on words, m on scalars) are outside the alphabet',
+        'regression labels that mix numbers and numeric text in one column (X,Y with object columns; sparse text rows whose omitted label is the number 0) are inside: a read may reject them as a whole, but an interaction that is produced must reward by -|a - float(label)|; other labels of mixed types, negative label_col indexes, rows without a label (other than a sparse numeric 0) and label_type values that are meaningless for the label kind (r on words, m on scalars) are outside the alphabet',
         'text sources: only the plainest serialisation of each format is used (format variety is C12), except one own serialisation per csv dialect option handed to CsvSource(**dialect); a finding that disappears when the dialect option / the path route is removed from the case is reported under one key per route; expected values have the types the readers document (csv: str, arff numeric: float, libsvm: int key -> float, labels: list of str)',
         'regression from a text source: the expected label is float(text)',
         'second reads / re-use of an environment object are left to C04',
@@ -404,6 +405,8 @@ class C14(Check):
                 if lab in MULTI and (n == 5 or (n == 4 and d not in ('xy', 'pairs', 'rows', 'srows', 'libsvm', 'manik'))): continue
                 pre = d.startswith('pre')
                 types = LABEL_TYPES[lab] if not pre else [None] + [t for t in LABEL_TYPES[lab] if t is not None]
+                if 'lts' in extra:
+                    types = extra['lts']; extra = {k: v for k, v in extra.items() if k != 'lts'}
                 for lt in types:
                     for decl in (types if pre else [NA]):
                         if pre and lt is None and decl is None and None not in LABEL_TYPES[lab]: continue      # multi-label is never inferred
@@ -463,6 +466,14 @@ class C14(Check):
                 yield 'srows', f, None, None, by, lab
         for lab in ('int', 'float'):                       # sparse rows that leave a label of 0 out
             yield 'srows0', 'sparse', None, None, 'hdr', lab
+        yield 'srows0', 'sparse', None, None, 'hdr', 'numstr', {'lts': ['r']}     # ... whose other labels are numeric text (regression)
+        for f in ('dense', 'sparse', 'scalar'):            # regression labels of mixed form (numbers and numeric text in one Y)
+            yield 'xy', f, (2 if f == 'dense' else None), None, None, 'mixnum'
+        yield 'pairs', 'dense', 2, None, None, 'mixnum'
+        for col in (0, 2):
+            yield 'rows', 'dense', 2, col, 'idx', 'mixnum'
+        yield 'hrows', 'dense', 2, 1, 'hdr', 'mixnum'
+        yield 'srows', 'sparse', None, None, 'hdr', 'mixnum'
         for lab in py:                                     # int-keyed sparse rows under HeadRows(['f0','y','f1'])
             if lab in MULTI and lab != 'mstr': continue
             for by in ('hdr', 'idx'):
@@ -585,6 +596,8 @@ class C14(Check):
             except Exception as e:   # noqa
                 if not idx:            # no example (left): the readers / Finalize may reject an empty data set: not demanded
                     outcomes.append(level + ':empty rejected:' + type(e).__name__); results[level] = []; continue
+                if lab == 'mixnum':    # labels of mixed form may be rejected as a whole (but not turned into rewards that raise)
+                    outcomes.append(level + ':mixed forms rejected:' + type(e).__name__); results[level] = []; continue
                 results[level] = [(f'{comp}|read raises {type(e).__name__}|{feat} label_type={lt}', f'read of {case} raised {e!r}')]
                 continue
             best = None
@@ -836,6 +849,7 @@ class C14(Check):
             for k, it in enumerate(got):
                 l = labs[idx[k]]
                 form = ('list[%s]' % type(l[0]).__name__) if isinstance(l, list) else type(l).__name__
+                if lab == 'mixnum' or (d == 'srows0' and lab == 'numstr'): form = 'numbers and numeric text in one label column'
                 y = l[0] if isinstance(l, list) else l
                 y = float(y) if isinstance(y, str) else y
                 r = it['rewards']
